@@ -81,7 +81,7 @@ func sameOuts(a, b []drive.Out) bool {
 
 // judgeDamagedChunk applies C07's chunk oracle to one damaged copy. recIdx is the top-level index of the damaged chunk.
 func judgeDamagedChunk(cf *c07File, damaged []byte, recIdx int, emitInvalid bool, rep *core.Report, comp string) (kind, msg string) {
-	lr := drive.Lex(bytes.NewReader(damaged), drive.LexOpts{Validate: true, EmitInvalid: emitInvalid, ComputeAttCRC: true, Custom: cf.c.K.Compression == "custom"})
+	lr := drive.Lex(bytes.NewReader(damaged), drive.LexOpts{Validate: true, EmitInvalid: emitInvalid, ComputeAttCRC: true, Custom: cf.c.K.Compression == "custom", ExtraOpts: emitInvalid})
 	if lr.Panic != nil {
 		return "panic", lr.Panic.Error()
 	}
